@@ -193,3 +193,22 @@ class Seq:
         self.length = length
         self.elem = elem
         self.origin = origin
+        self.writes = []
+
+    def append(self, x):
+        n, old = self.length, self.elem
+        self.elem = lambda i, n=n, old=old, x=x: ite_struct(S.eq(i, n), x, old(i))
+        self.length = S.add(n, 1)
+
+
+def ite_struct(c, a, b):
+    """if-then-else over scalars, tuples and slices of scalars."""
+    if isinstance(c, bool):
+        return a if c else b
+    if isinstance(a, tuple) and isinstance(b, tuple) and len(a) == len(b):
+        return tuple(ite_struct(c, x, y) for x, y in zip(a, b))
+    if isinstance(a, slice) and isinstance(b, slice):
+        return slice(ite_struct(c, a.start, b.start), ite_struct(c, a.stop, b.stop), ite_struct(c, a.step, b.step))
+    if a is None and b is None:
+        return None
+    return S.ite(c, a, b)
